@@ -537,6 +537,12 @@ func (c20) Generate(r *sim.Rand, tier string) *sim.Scenario {
 	// "big" flavour: shared tensors large enough for size-triggered code paths
 	// (a 32..40 square matrix: m*n*k >= 2^15; a matrix of >= 4096 elements)
 	big := r.Bool(c20BigP)
+	rngStorm := !big && r.Bool(c20BigP/8)
+	if rngStorm {
+		ntasks = r.Range(4, 8)
+		sc.Cfg["tasks"] = float64(ntasks)
+		sc.Cfg["rngstorm"] = 1
+	}
 	bigA, bigM := -1, -1
 	if big {
 		n := r.Range(32, 40)
@@ -650,6 +656,25 @@ func (c20) Generate(r *sim.Rand, tier string) *sim.Scenario {
 				}
 				if res.T != nil {
 					record(st, res.T, st.In)
+				}
+				steps = append(steps, st)
+			}
+		}
+		if rngStorm {
+			// one task fills a large random tensor while the others make dozens of
+			// small random-constructor calls (state handed round-robin to calls,
+			// shared by a long call and a much later one)
+			n = 0
+			calls, shape := r.Range(15, 60), []int{r.Range(2, 3)}
+			if tk == 0 {
+				calls, shape = r.Range(1, 3), []int{r.Range(120, 170), r.Range(150, 220)}
+			}
+			for j := 0; j < calls; j++ {
+				st := sim.Step{C: tk, Out: ids.New(), I: cpI(shape), Tag: "rng", B: false}
+				if r.Bool(0.5) {
+					st.Op, st.F = "randu", []float64{-1, 1}
+				} else {
+					st.Op, st.F = "randn", []float64{0, 1}
 				}
 				steps = append(steps, st)
 			}
